@@ -47,6 +47,10 @@ func (m *TN93Model) Distance(seq1 []uint8, seq2 []uint8, weights []float64) (flo
 	e1 := 1 - trV/(2*piy*pir)
 	e2 := 1 - trV/(2*pir) - pir*p1/(2*papg)
 	e3 := 1 - trV/(2*piy) - piy*p2/(2*pcpt)
+	if e1 < 0 || e2 < 0 || e3 < 0 {
+		// Saturated: the distance is undefined (also with the gamma correction)
+		return math.NaN(), nil
+	}
 
 	if m.gamma {
 		b1 = (piy/pir*m.alpha*(1.-math.Pow(e1, -1./m.alpha)) - 1./pir*m.alpha*(1.-math.Pow(e2, -1./m.alpha)))
